@@ -244,4 +244,84 @@ func init() {
 		}
 		return "allerr"
 	})
+	// wrfailall x : a writer failing at any offset below the serialized size makes WriteTo report an error
+	reg("wrfailall", func(e *env, a []string) string {
+		need(a, 1)
+		x := e.b(a[0])
+		sz := int(x.GetSerializedSizeInBytes())
+		step := 1
+		if sz > 3000 {
+			step = sz / 1500
+		}
+		for k := 0; k < sz; k += step {
+			fw := &failWriter{limit: k}
+			n, err := x.WriteTo(fw)
+			if err == nil {
+				return fmt.Sprintf("noerr@%d", k)
+			}
+			if n > int64(k) {
+				return fmt.Sprintf("overcount@%d:%d", k, n)
+			}
+			if k > 64 && k < sz-64 && step == 1 && sz > 600 {
+				k += 6
+			}
+		}
+		return "allerr"
+	})
+	// rdsplit x : ReadFrom on a stream cut once at every offset (plus foreign trailing bytes) decodes the same bitmap
+	// and consumes exactly the serialized size
+	reg("rdsplit", func(e *env, a []string) string {
+		need(a, 1)
+		x := e.b(a[0])
+		bs, err := x.ToBytes()
+		if err != nil {
+			return "err:" + spaceless(err.Error())
+		}
+		data := append(append([]byte(nil), bs...), 0xA5, 0x5A, 0xA5)
+		step := 1
+		if len(bs) > 3000 {
+			step = len(bs) / 1500
+		}
+		for k := 1; k < len(bs); k += step {
+			sr := &splitReader{data: data, cut: k}
+			y := roaring.New()
+			n, derr := y.ReadFrom(sr)
+			if derr != nil {
+				return fmt.Sprintf("err@%d", k)
+			}
+			if n != int64(len(bs)) || sr.off != len(bs) {
+				return fmt.Sprintf("count@%d:%d:%d", k, n, sr.off)
+			}
+			if !y.Equals(x) {
+				return fmt.Sprintf("differs@%d", k)
+			}
+			if k > 64 && k < len(bs)-64 && step == 1 && len(bs) > 600 {
+				k += 6
+			}
+		}
+		return "allok"
+	})
+}
+
+// splitReader delivers data[:cut] and then the rest, never crossing the cut in one Read.
+type splitReader struct {
+	data []byte
+	cut  int
+	off  int
+}
+
+func (c *splitReader) Read(p []byte) (int, error) {
+	if c.off >= len(c.data) {
+		return 0, io.EOF
+	}
+	n := len(p)
+	if c.off < c.cut && n > c.cut-c.off {
+		n = c.cut - c.off
+	}
+	if n > len(c.data)-c.off {
+		n = len(c.data) - c.off
+	}
+	copy(p, c.data[c.off:c.off+n])
+	c.off += n
+	return n, nil
 }
